@@ -4,7 +4,7 @@ Import ListNotations.
 From Exmex.Model Require Import Base EvalBinary Lexer Flat Deep Convert.
 From Exmex.Spec Require Import RefSem.
 From Coq Require Import Sorted.
-From Exmex.Proofs Require Import CompileCorrect FlatPev DeepSem DeepCompile DeepParse C03Main C01Main C01Vars C11Main ConvertMain ToDeep ConvertCompose Accept WalkSim Vars Listings ParseListings LexSpaced.
+From Exmex.Proofs Require Import CompileCorrect FlatPev DeepSem DeepCompile DeepParse C03Main C01Main C01Vars C11Main ConvertMain ToDeep ConvertCompose Accept WalkSim Vars Listings ParseListings LexSpaced ParseAny.
 Open Scope nat_scope.
 
 (* 1. The deep parser (recursive descent, one folded sub-expression per parenthesis group and per variable under unary
@@ -165,6 +165,13 @@ Theorem C03_every_parsed_flat_expression_converts :
   make_expression tb true text ts (find_parsed_vars ts) = Ok fx -> flat_ok C tb fx.
 Proof. exact @parsed_flat_ok. Qed.
 
+(* 6b. ... and what the DEEP parser builds from ANY token list it accepts is deep_ok and lists exactly the variables of
+   the tokens, so 4 and 5 apply to it too: its flat form has the same variables and values *)
+Theorem C03_every_parsed_deep_expression_converts :
+  forall (D : Type) (C : carrier D) (tb : optable) (ts : list (token D)) (e : deepex D),
+  parse_deep_tokens C tb ts = Ok e -> dvars e = find_parsed_vars ts /\ deep_ok tb e.
+Proof. intros D C tb ts e H. split; [exact (proj1 (parsed_any C tb ts e H))|exact (parsed_any_deep_ok C tb ts e H)]. Qed.
+
 (* 7. Operator listings.  (a) On EVERY expression of either form all three listings are strictly increasing in the
    order of the names, hence sorted and duplicate free. *)
 Theorem C03_listings_sorted_duplicate_free :
@@ -221,8 +228,9 @@ Example C03_example_value :
   = Ok (Bin 0 (Bin 2 (Un 1 (Bin 0 (V 0) (V 1))) (Bin 3 (Un 4 (Un 5 (V 2))) (Lit [50%N]))) (Bin 0 (Lit [51%N]) (Lit [52%N]))).
 Proof. vm_compute. reflexivity. Qed.
 
-(* Outside these theorems (covered by the correspondence of this check): sloppy strings parsed by the DEEP parser
-   directly (the flat parse of every accepted token list and its conversions are covered by 4-6), and the operator
+(* Outside these theorems (covered by the correspondence of this check): the VALUE of sloppy strings parsed by the DEEP
+   parser directly against the reference (the flat parse of every accepted token list and its conversions are covered by
+   4-6, the structure and conversions of every deep parse by 6b), and the operator
    listings of folded and deep-parsed expressions beyond 7 (which names folding removes). *)
 Print Assumptions C03_deep_parse_is_reference.
 Print Assumptions C03_deep_token_entry_point.
@@ -232,6 +240,7 @@ Print Assumptions C03_flat_to_deep.
 Print Assumptions C03_deep_to_flat.
 Print Assumptions C03_any_number_of_round_trips.
 Print Assumptions C03_every_parsed_flat_expression_converts.
+Print Assumptions C03_every_parsed_deep_expression_converts.
 Print Assumptions C03_listings_sorted_duplicate_free.
 Print Assumptions C03_listings_are_the_operators_of_the_expression.
 Print Assumptions C03_deep_to_flat_keeps_the_listings.
